@@ -1426,6 +1426,11 @@ func Hydro(horizon int, g *GlobalVarsMain, local *InputSharedVars, hPath *HFileP
 	g.FELDW[horizonIndex] = local.FK[horizonIndex] + KRR/100
 	g.NORMFK[horizonIndex] = local.FK[horizonIndex]
 	g.PRGES[horizonIndex] = g.PRGES[horizonIndex] + KRG/100
+	if g.FELDW[horizonIndex] > g.PRGES[horizonIndex] {
+		// silty, loamy and clayey textures get a humus addition to the field capacity but none to the pore volume:
+		// the field capacity cannot exceed the pore volume
+		g.FELDW[horizonIndex] = g.PRGES[horizonIndex]
+	}
 
 	if g.IZM/g.DZ.Index > g.N {
 		g.IZM = g.N * g.DZ.Index
